@@ -20,7 +20,7 @@ def solvent (s : St) : Bool := (denoms s).all (fun d => decide (recorded s d ≤
 
 /-- C02: pool units = Σ provider units, and every provider record belongs to an existing pool -/
 def unitsOK (s : St) : Bool :=
-  s.pools.all (fun e => decide (e.2.units = s.lps.sumBy (fun l => if l.sym = e.2.sym then l.units else 0)))
-  && s.lps.all (fun e => s.pools.contains (poolKey e.2.sym))
+  s.pools.all (fun e => decide (e.2.units = (s.lpsOf e.2.sym).sumBy (·.units)))
+  && s.lps.all (fun e => e.2.isEmpty || s.pools.contains (poolKey e.1))
 
 end Sif.Spec.C01
